@@ -20,9 +20,9 @@ def obligations(tier):
                              ('h_atomic_ret', ['mtAtomicIncr'], 'increment returns the value it produced'),
                              ('h_cas', ['mtAtomicCmpSwap'], 'exactly one winner')):
                 obs.append(Ob(name='c18_%s_t%d_%s' % (e[2:], n, mm), harness='harness/C18/once.c', entry=e, defs=['NTHR=%d' % n], srcs=MT,
-                              unwind=3, no_uwa=True, checks=[], cbmc_extra=['--mm', mm], timeout=900, replay='none',
+                              unwind=n + 2, no_uwa=True, checks=[], cbmc_extra=['--mm', mm], timeout=900, replay='none',
                               noreplay_reason='a counterexample is a schedule (and, under tso/pso, a store order); it cannot be forced on this host',
-                              funcs=fn, bound='%d threads, all interleavings, memory model %s, spin loop unwound 3 times (longer waits outside the bound): %s' % (n, mm, b)))
+                              funcs=fn, bound='%d threads, all interleavings, memory model %s, spin loop unwound n+2 times (longer waits outside the bound): %s' % (n, mm, b)))
     nc = 4 if tier == 'quick' else 6
     obs.append(Ob(name='c18_rng_lock_discipline_n%d' % nc, harness='harness/C18/rng.c', entry='h_rng', defs=['NCALL=%d' % nc], extra=['stubs/vp_libc.c'],
                   srcs=[('src/core/rng.c', {'defs': ['static='], 'remove': ['rngESRead']}), 'src/core/mem.c', ('src/core/util.c', {'remove': ['utilOnExit']}), 'src/core/str.c'],
